@@ -231,8 +231,8 @@ def generate(rng, tier):
         cases.append(c)
     # one size above 180 points per side in every run (costs that switch algorithm by size)
     for law, dist in (("perm", "W"), ("translate", "W"), ("perm", "B")):
-        n = rng.choice([182, 185, 190])
-        c = _mono_case(rng, law, dist, n, n - rng.choice([0, 1, 3]))
+        n = rng.choice([185, 190, 200])
+        c = _mono_case(rng, law, dist, n, n - rng.choice([0, 1]))
         if law == "translate":
             c["c"] = rng.choice([1e3, 1e5, -2.5e4])
         cases.append(c)
